@@ -3,3 +3,4 @@ CONSTANTS
   Variant = "fixed"
 CONSTRAINT JudgeP
 CONSTRAINT JudgeM
+CONSTRAINT JudgeL
